@@ -3,7 +3,10 @@
    9 harness error (pattern outside the model: `**`).
    A case is a tree of ledger files (abstracted: every file is its sequence of `Inc written` and
    `Ent id` entries), the root path, the uncut ledger (entry ids in order), and what
-   Loader::load delivered on the in-memory file system and on a real directory. *)
+   Loader::load delivered on the in-memory file system and on a real directory.
+   An id below 1000 stands for a transaction (recognisable in the reports by the amount it
+   books), 1000.. for an account directive, 2000.. commodity directive, 3000.. apply tag,
+   4000.. end apply tag, 5000.. top-level comment: the loader model treats all alike. *)
 From Coq Require Import List NArith Bool.
 From Okv Require Import Model.Glob Model.Load Model.LoadSpec Proofs.GlobProofs.
 Import ListNotations.
@@ -29,11 +32,17 @@ Record case := {
   c_ledger : list N;   (* the uncut ledger *)
   c_fake : lobs;       (* Loader<FakeFileSystem> *)
   c_real : lobs;       (* new_loader (ProdFileSystem) on a scratch directory *)
-  c_bal : N            (* report::process balances, cut tree (both file systems) vs uncut ledger:
-                          0 not compared | 1 equal | 2 different *)
+  c_bal : N;           (* every report (dates, register with running totals, register of one account,
+                          balance, account list through the library; okane balance / register /
+                          accounts / primitive flatten on disk), cut tree (both file systems) vs the
+                          uncut ledger: 0 not compared | 1 all equal | 2 some report differs *)
+  c_reg : list (list N) (* the transactions as Ledger::transactions() holds them after
+                          report::process - the order `register` prints -, each named by its id:
+                          [uncut ledger; tree in memory; tree on disk] *)
 }.
-Definition Case k fs root l f r b :=
-  {| c_kind := k; c_fs := fs; c_root := root; c_ledger := l; c_fake := f; c_real := r; c_bal := b |}.
+Definition Case k fs root l f r b g :=
+  {| c_kind := k; c_fs := fs; c_root := root; c_ledger := l; c_fake := f; c_real := r; c_bal := b;
+     c_reg := g |}.
 
 Definition pair_eqb (a b : N * N) : bool := (fst a =? fst b) && (snd a =? snd b).
 
@@ -42,6 +51,23 @@ Fixpoint list_eqb {A} (eqb : A -> A -> bool) (a b : list A) : bool :=
   | [], [] => true
   | x :: a', y :: b' => eqb x y && list_eqb eqb a' b'
   | _, _ => false
+  end.
+
+Definition is_txn (id : N) : bool := id <? 1000.
+
+(* the tree's transaction sequence (both file systems) is the uncut ledger's *)
+Definition reg_same (c : case) : bool :=
+  match c_reg c with
+  | [u; f; r] => list_eqb N.eqb f u && list_eqb N.eqb r u
+  | _ => false
+  end.
+
+(* what the composed model (Model/Pipeline.v run_files: entries are booked as delivered) says the
+   register order is: the transactions of the delivery, in delivery order *)
+Definition reg_model (c : case) : bool :=
+  match c_reg c with
+  | [u; f; r] => list_eqb N.eqb f (filter is_txn (c_ledger c))
+  | _ => false
   end.
 
 Definition lobs_eqb (a b : lobs) : bool :=
@@ -73,6 +99,7 @@ Definition spec_holds (c : case) : bool :=
       negb ((st =? 5) || (st =? 6)) &&           (* the trees are acyclic: no crash, no hang *)
       match c_kind c with
       | 0 | 4 => (st =? 0) && list_eqb N.eqb (map snd t) (c_ledger c) && (c_bal c =? 1)
+                 && reg_same c
       | 1 => (st =? 1) && prefix_eqb (map snd t) (c_ledger c)
       | 3 => (st =? 7) && prefix_eqb (map snd t) (c_ledger c)
       | _ => true
@@ -126,7 +153,8 @@ Definition classify (c : case) : N :=
   | LObs _ st =>
       if 90 <=? st then 9
       else if negb (spec_holds c) then (if known_class_star_dot c then 101 else 2)
-      else if lobs_eqb (c_fake c) (model_obs c) then 0 else 1
+      else if lobs_eqb (c_fake c) (model_obs c)
+              && (match c_kind c with 0 | 4 => reg_model c | _ => true end) then 0 else 1
   end.
 
 Definition verdicts (cs : list case) : list N := map classify cs.
